@@ -1,0 +1,81 @@
+// SPDX-FileCopyrightText: 2026 The Pion community <https://pion.ly>
+// SPDX-License-Identifier: MIT
+
+//go:build verif && !js
+
+package webrtc
+
+import (
+	"errors"
+	"strconv"
+	"strings"
+
+	"github.com/pion/webrtc/v4/pkg/rtcerr"
+)
+
+// VerifCheckNextSignalingState calls checkNextSignalingState with raw argument values
+// (verification hook, C01/C02) and returns the state it returned and the class of its error.
+func VerifCheckNextSignalingState(cur, next SignalingState, op int, sdpType SDPType) (SignalingState, string) {
+	st, err := checkNextSignalingState(cur, next, stateChangeOp(op), sdpType)
+
+	return st, VerifSignalingErrClass(err)
+}
+
+// VerifSignalingErrClass names the cause of an error returned by SetLocalDescription /
+// SetRemoteDescription / CreateOffer / CreateAnswer (verification hook, C01-C03). The names are
+// stable tokens of the line protocol; unexported sentinel errors are why this lives here.
+//
+//nolint:cyclop
+func VerifSignalingErrClass(err error) string {
+	var (
+		invalidState *rtcerr.InvalidStateError
+		typeErr      *rtcerr.TypeError
+		operation    *rtcerr.OperationError
+		numErr       *strconv.NumError
+	)
+	switch {
+	case err == nil:
+		return "ok"
+	case errors.Is(err, errSignalingStateCannotRollback):
+		return "norollback"
+	case errors.Is(err, errSignalingStateProposedTransitionInvalid):
+		return "transition"
+	case errors.Is(err, errSDPDoesNotMatchOffer):
+		return "mismatch-offer"
+	case errors.Is(err, errSDPDoesNotMatchAnswer):
+		return "mismatch-answer"
+	case errors.Is(err, errPeerConnSDPTypeInvalidValueSetLocalDescription):
+		return "emptysdp"
+	case errors.Is(err, ErrConnectionClosed):
+		return "closed"
+	case errors.Is(err, ErrNoRemoteDescription):
+		return "noremote"
+	case errors.Is(err, ErrIncorrectSignalingState):
+		return "wrongstate"
+	case errors.Is(err, errPeerConnSDPTypeInvalidValue) || errors.As(err, &typeErr):
+		return "type"
+	case errors.Is(err, errPeerConnStateChangeInvalid) || errors.Is(err, errPeerConnStateChangeUnhandled) ||
+		errors.As(err, &operation):
+		return "oper"
+	case errors.Is(err, errPeerConnRemoteDescriptionWithoutMidValue):
+		return "nomid"
+	case errors.Is(err, ErrSessionDescriptionMissingIceUfrag):
+		return "noufrag"
+	case errors.Is(err, ErrSessionDescriptionMissingIcePwd):
+		return "nopwd"
+	case errors.Is(err, ErrSessionDescriptionNoFingerprint):
+		return "nofp"
+	case errors.Is(err, ErrSessionDescriptionInvalidFingerprint):
+		return "badfp"
+	case errors.Is(err, ErrSDPUnmarshalling) || strings.HasPrefix(err.Error(), "sdp: "):
+		return "parse"
+	case strings.HasPrefix(err.Error(), "failed to parse "): // pion/ice candidate attribute errors
+		return "cand"
+	case errors.As(err, &numErr): // payload type / apt that is not a number (media engine)
+		return "codec"
+	case errors.As(err, &invalidState):
+		return "invalidstate"
+	default:
+		return "other"
+	}
+}
